@@ -141,7 +141,8 @@ def gen_cases(ctx):
             N = rng.choice([1, 2])
             letters = "xyz"[:D]
             keys = [a for a in letters] + [a + b for a in letters for b in letters]
-            which = rng.sample(keys, rng.randint(1, 3))
+            keys3 = [a + b + c_ for a in letters for b in letters for c_ in letters]  # total order 3, mixed ones included
+            which = rng.sample(keys, rng.randint(1, 2)) + rng.sample(keys3, 1)
             form = rng.randrange(4)
             spv = [[rng.choice([0.5, 1.0, 2.0, 0.25]) for _ in range(D)] for _ in range(N)]
             if form == 0:
